@@ -1,7 +1,7 @@
-(* C12 — optimisation over a constraint list returns the true optimum; None iff unbounded.
-   The ValueError clause is the weak one the code really guarantees given the measured solver
-   behaviour (HiGHS may report "infeasible" for feasible unbounded problems): see DESIGN 5 (D6).
-   Statements only; proofs in proofs/PolyFacts.v. *)
+(* C12 — optimisation over a constraint list returns the true optimum; None exactly when the
+   objective is unbounded over a non-empty set; ValueError exactly when the set is empty
+   (HiGHS may report "infeasible" for feasible unbounded problems; the fixed code then asks
+   is_empty()).  Statements only; proofs in proofs/PolyFacts.v. *)
 From Coq Require Import List String Bool QArith Reals.
 Import ListNotations.
 Require Import Py ListsGen Sem Term Poly PolySpec TermFacts PolyLP PolyFacts.
@@ -21,12 +21,27 @@ Theorem C12_none : forall O, lp_spec 0 O -> forall ts objective mx, wfl ts -> No
 Proof. exact optimize_none. Qed.
 Print Assumptions C12_none.
 
-Theorem C12_error_partial : forall O, lp_spec 0 O -> forall ts objective mx, wfl ts -> NoDup (keys objective) ->
-  ts <> [] -> poly_optimize O ts objective mx = inr ValueErr -> lp_total O ->
-  (forall rho, ~ sat_list rho ts) \/
-  (forall bound, exists rho, sat_list rho ts /\ (if mx then bound < lin rho objective else lin rho objective < bound)).
-Proof. exact optimize_error. Qed.
-Print Assumptions C12_error_partial.
+(* ValueError exactly when the constraint list is empty (as a set): since the fix, solver status 2
+   ("infeasible or unbounded") is disambiguated by self.is_empty().  For ts = [] the code raises
+   ValueError as well (linprog rejects the empty A_ub), hence ts <> []. *)
+Theorem C12_error : forall O, lp_spec 0 O -> forall ts objective mx, wfl ts -> NoDup (keys objective) ->
+  ts <> [] -> lp_total O -> poly_optimize O ts objective mx = inr ValueErr ->
+  forall rho, ~ sat_list rho ts.
+Proof. intros O HO ts objective mx Hts _ Hne HT. exact (optimize_error O HO ts objective mx Hts Hne HT). Qed.
+Print Assumptions C12_error.
+
+Theorem C12_empty_raises : forall O, lp_spec 0 O -> forall ts objective mx, wfl ts -> NoDup (keys objective) ->
+  ts <> [] -> lp_total O -> (forall rho, ~ sat_list rho ts) ->
+  poly_optimize O ts objective mx = inr ValueErr.
+Proof. exact optimize_empty_raises. Qed.
+Print Assumptions C12_empty_raises.
+
+Theorem C12_unbounded_none : forall O, lp_spec 0 O -> forall ts objective (mx : bool), wfl ts -> NoDup (keys objective) ->
+  ts <> [] -> lp_total O -> (exists rho, sat_list rho ts) ->
+  (forall bound, exists rho, sat_list rho ts /\ (if mx then bound < lin rho objective else lin rho objective < bound)) ->
+  poly_optimize O ts objective mx = inl None.
+Proof. exact optimize_unbounded_none. Qed.
+Print Assumptions C12_unbounded_none.
 
 Theorem C12_bounds : forall O ts objective lo hi, lp_spec 0 O -> wfl ts -> NoDup (keys objective) ->
   poly_optimize O ts objective true = inl (Some hi) -> poly_optimize O ts objective false = inl (Some lo) ->
